@@ -73,7 +73,7 @@ example : ∃ fr, (setSimJoinPy .jaccard exArgsSmall {} exToks 4).result = .ok f
         (tokensOf (exToks true) exR "s" exRs) = true := by
   obtain ⟨fr, hres, row, hrow, hk, -⟩ :=
     EntryWide.complete_wide .jaccard exArgsSmall {} exToks 4 exL exR (Or.inl rfl) exValidSmall (thrSmall .jaccard) exScope
-      exLs exLs_mem exRs exRs_mem exLs_present exRs_present exPair_nonempty exPair_qual_small
+      exLs exLs_mem exRs exRs_mem exLs_present exRs_present exPair_nonempty exPair_qual_small (by decide +kernel)
   refine ⟨fr, hres, row, hrow, hk, ?_⟩
   rcases setsim_sound_of_keys_wide .jaccard exArgsSmall {} exToks 4 exL exR exValidSmall exScope fr hres row hrow
     exLs exLs_mem exRs exRs_mem exLs_present exRs_present hk with ⟨he, -, -⟩ | ⟨-, hq, -⟩
@@ -87,7 +87,7 @@ example : ∃ fr, (setSimJoinPy .jaccard exArgsInt {} exToks1 4).result = .ok fr
         (tokensOf (exToks1 true) exR "s" exRs) = true := by
   obtain ⟨fr, hres, row, hrow, hk, -⟩ :=
     EntryWide.complete_wide .jaccard exArgsInt {} exToks1 4 exL exR (Or.inl rfl) exValidInt .intOne exScope1
-      exLs exLs_mem exRs exRs_mem exLs_present exRs_present exPair_nonempty1 exPair_qual_int
+      exLs exLs_mem exRs exRs_mem exLs_present exRs_present exPair_nonempty1 exPair_qual_int (by decide +kernel)
   refine ⟨fr, hres, row, hrow, hk, ?_⟩
   rcases setsim_sound_of_keys_wide .jaccard exArgsInt {} exToks1 4 exL exR exValidInt exScope1 fr hres row hrow
     exLs exLs_mem exRs exRs_mem exLs_present exRs_present hk with ⟨he, -, -⟩ | ⟨-, hq, -⟩
